@@ -6,6 +6,9 @@ package iavl
 
 import (
 	"bytes"
+
+	corestore "cosmossdk.io/core/store"
+	dbm "github.com/cosmos/iavl/db"
 )
 
 type vHistCfg struct {
@@ -28,6 +31,7 @@ type vHistCfg struct {
 	nilKeys  int      // number of pool keys tried by the "setnil" op (default 1)
 	roKinds  []int    // kinds of read-only calls tried by the "readonly" op
 	roKeys   int      // number of pool keys tried by the "readonly" op (default 1)
+	backends int      // 2: the store is chosen among {vDB, PrefixDB(vDB, prefix ending in 0xFF) with foreign keys around it}
 	perStep  func(h *vHist)
 	final    func(h *vHist)
 }
@@ -52,6 +56,7 @@ type vHist struct {
 	nOps     int
 	dirty    bool // working tree differs from latest (writes since last commit)
 	log      []string
+	backend  int
 	f6       bool // inside the region of known finding F6
 	f2       bool // inside the region of known finding F2
 	allRoots map[int64]*rNode // reference roots of every version ever committed (incl. deleted)
@@ -128,8 +133,40 @@ func (h *vHist) opts() []Option {
 	return o
 }
 
+var vForeignKeys = [][]byte{{0x01}, {0x01, 0xFE, 0x73}, {0x01, 0xFF}, {0x02}, {0x02, 0x00}}
+
+func (h *vHist) store() corestore.KVStoreWithBatch {
+	if h.backend == 1 {
+		return dbm.NewPrefixDB(h.db, []byte{0x01, 0xFF})
+	}
+	return h.db
+}
+
 func (h *vHist) open() {
-	h.tree = NewMutableTree(h.db, h.cache, !h.fastOn, NewNopLogger(), h.opts()...)
+	h.tree = NewMutableTree(h.store(), h.cache, !h.fastOn, NewNopLogger(), h.opts()...)
+}
+
+// checkForeign: with the prefix-namespaced backend the keys outside the namespace are never touched.
+func (h *vHist) checkForeign() {
+	if h.backend != 1 {
+		return
+	}
+	for i, k := range vForeignKeys {
+		v := h.db.rawGet(k)
+		vAssert(v != nil && len(v) == 1 && v[0] == byte(0xF0+i), "foreign-key-touched")
+	}
+	for i := 0; i < len(h.db.keys); i++ {
+		k := h.db.keys[i]
+		foreign := false
+		for _, f := range vForeignKeys {
+			if bytes.Equal(k, f) {
+				foreign = true
+			}
+		}
+		if !foreign {
+			vAssert(len(k) > 2 && k[0] == 0x01 && k[1] == 0xFF, "key-written-outside-the-namespace")
+		}
+	}
 }
 
 func vStartHist(cfg *vHistCfg) *vHist {
@@ -155,6 +192,14 @@ func vStartHist(cfg *vHistCfg) *vHist {
 		h.iv = cfg.initVer[0]
 		if len(cfg.initVer) > 1 {
 			h.iv = cfg.initVer[vChoice("initver", len(cfg.initVer))]
+		}
+	}
+	if cfg.backends > 1 {
+		h.backend = vChoice("backend", cfg.backends)
+		if h.backend == 1 {
+			for i, k := range vForeignKeys {
+				h.db.put(k, []byte{byte(0xF0 + i)})
+			}
 		}
 	}
 	h.open()
@@ -316,8 +361,14 @@ func (h *vHist) doPrune() {
 	if h.latest == 0 {
 		vStop()
 	}
-	span := int(h.latest - h.first + 2)
-	n := h.first - 1 + int64(vChoice("pruneTo", span))
+	// n ranges over [first-3, latest] (clipped at 0): stale requests below the oldest retained version
+	// (accepted, no effect), every retained version, and the latest (rejected)
+	lo := h.first - 3
+	if lo < 0 {
+		lo = 0
+	}
+	span := int(h.latest - lo + 1)
+	n := lo + int64(vChoice("pruneTo", span))
 	err := h.tree.DeleteVersionsTo(n)
 	if n >= h.latest {
 		vAssert(err != nil, "prune-latest-rejected")
@@ -387,6 +438,7 @@ func (h *vHist) run() {
 }
 
 func (h *vHist) audit() {
+	h.checkForeign()
 	vAuditReads(h.tree, h.p, h.work, "work")
 	if h.cfg.iso {
 		vIso(h.tree.ImmutableTree, h.tree.root, h.workRef, "work-iso")
